@@ -237,10 +237,55 @@ PROGRAMS += [('p_layer_names', (c, left)) for c in range(4) for left in (False, 
 PROGRAMS += [('p_int_to_chars_custom', (3, True, 0)), ('p_int_to_chars_custom', (3, False, 3))]
 
 
+def p_constructed_names(e, arg):
+    """A geometry built by the real mulgrid.rectangular (run by the executor, symbolic spacings and origin): all block names
+    are distinct five-character strings, the column part and the layer part of every block name give back the column and
+    layer it was built from, generated column / layer / node names have the convention's length and are distinct."""
+    (nx, ny, nz), conv, atm, justify, case = arg
+    tag = '[%dx%dx%d,conv%d,atm%d,%s,%s]' % (nx, ny, nz, conv, atm, justify, case)
+    def prog(e):
+        m = e.load_module('mulgrids').globals
+        dx = [e.sym_real('dx%d' % k) for k in range(nx)]; dy = [e.sym_real('dy%d' % k) for k in range(ny)]; dz = [e.sym_real('dz%d' % k) for k in range(nz)]
+        for v in dx + dy + dz:
+            e.assume(v > 0)
+        try:
+            geo = e.call(e.getattr(e.call(m['mulgrid'], []), 'rectangular'), [dx, dy, dz],
+                         {'atmos_type': atm, 'convention': conv, 'justify': justify, 'case': case, 'origin': [e.sym_real('ox'), e.sym_real('oy'), e.sym_real('oz')]})
+        except PyExc as ex:
+            e.fail('post:constructor_completes' + tag, 'raises %s: %s' % (ex.cls, ex.msg)); return
+        f = geo.fields
+        names = f['block_name_list']
+        natm = {0: 1, 1: nx * ny, 2: 0}[atm]
+        e.prove(len(names) == natm + nx * ny * nz and len(set(names)) == len(names) and all(isinstance(n, str) and len(n) == 5 for n in names), 'post:block_names_are_distinct_five_character_strings' + tag)
+        ok = True
+        k = natm
+        cl, ll = {0: (3, 2), 1: (2, 3), 2: (3, 2), 3: (3, 2)}[conv]
+        # layer-major order of the default block order: for every layer, every column
+        for lay in f['layerlist'][1:]:
+            for col in f['columnlist']:
+                nm = names[k]; k += 1
+                ok = ok and e.call(e.getattr(geo, 'column_name'), [nm]) == col.fields['name'] and e.call(e.getattr(geo, 'layer_name'), [nm]) == lay.fields['name'] and \
+                    e.call(e.getattr(geo, 'block_name'), [lay.fields['name'], col.fields['name']]) == nm
+        e.prove(ok, 'post:column_and_layer_parts_of_a_block_name_give_back_its_column_and_layer' + tag)
+        cn = [c.fields['name'] for c in f['columnlist']]; ln = [l.fields['name'] for l in f['layerlist']]; nn = [n.fields['name'] for n in f['nodelist']]
+        e.prove(len(set(cn)) == len(cn) and len(set(ln)) == len(ln) and len(set(nn)) == len(nn) and all(len(x) == f['colname_length'] for x in cn + nn) and all(len(x) == f['layername_length'] for x in ln),
+                'post:generated_names_distinct_and_of_the_convention_length' + tag)
+    e.explore(prog, 'constructed_names')
+
+
+PROGRAMS += [('p_constructed_names', (shape, conv, atm, j, c)) for shape in ((3, 2, 3), (12, 1, 2)) for conv in range(4) for atm in (0, 1, 2) for (j, c) in (('r', None), ('l', 'u'))]
+
+
 # ---- native replay -----------------------------------------------------------------------
 
 def replay(obname, model, result):
     m = model or {}
+    if result['program'] == 'p_constructed_names':
+        (nx, ny, nz), conv, atm, justify, case = result['arg']
+        return ("from mulgrids import *\ng = mulgrid().rectangular([10. + k for k in range(%d)], [8. + k for k in range(%d)], [5. + k for k in range(%d)], convention=%d, atmos_type=%d, justify=%r, case=%r)\n"
+                "n = g.block_name_list\nok = len(set(n)) == len(n) and all(len(x) == 5 for x in n)\nk = g.num_atmosphere_blocks\n"
+                "for lay in g.layerlist[1:]:\n    for col in g.columnlist:\n        ok = ok and g.column_name(n[k]) == col.name and g.layer_name(n[k]) == lay.name; k += 1\n"
+                "detail = str(n[:12])\n") % (nx, ny, nz, conv, atm, justify, case)
     prog = result['program']
     arg = result['arg']
     if prog in ('p_fix_idempotent', 'p_cycle_stable', 'p_unfix_frame') and 'name' in m:
